@@ -371,3 +371,227 @@ Lemma norm_class v : elem_class (norm v) = elem_class v.
 Proof. destruct v as [s [|? ?]| | | |]; reflexivity. Qed.
 Lemma norm_len v : data_len (norm v) = data_len v.
 Proof. destruct v as [s [|? ?]| | | |]; cbn [norm data_len]; rewrite ?map_length; reflexivity. Qed.
+
+(** ** top-level metadata: a label (ArrayRep::Full) and map keys (ArrayRep::Map) *)
+Definition map_try (self : json -> option mval) (kd : nat) (sh : list nat) (A B : json) : option mval :=
+  match self A with
+  | Some (MV kv None None) =>
+      match p_coll true self kd sh B with
+      | Some v => Some (MV v None (if Nat.eqb (rows (shape_of kv)) (rows sh) then Some (to_num kv) else None))
+      | None => None end
+  | _ => None end.
+
+Lemma p_array_tuple3 self kd sh A B :
+  p_coll true self kd [] (JArr [shape_json sh; A; B]) = None ->
+  p_scalar true self kd (JArr [shape_json sh; A; B]) = None ->
+  p_array true self kd (JArr [shape_json sh; A; B]) =
+    match map_try self kd sh A B with
+    | Some m => Some m
+    | None => match p_meta true B with
+              | Some lbl => option_map (fun v => MV v lbl None) (p_coll true self kd sh A)
+              | None => None end
+    end.
+Proof.
+  intros H1 H2. unfold p_array, map_try. rewrite H1, H2, p_shape_json.
+  destruct (self A) as [[kv [l|] [k|]]|]; try reflexivity.
+Qed.
+
+Lemma opt_map3_none {A B} (f : A -> option B) a b c : f c = None -> opt_map f [a; b; c] = None.
+Proof. intros H. cbn [opt_map]. rewrite H. destruct (f a), (f b); reflexivity. Qed.
+
+Lemma p_value_first self J R (K : nat) : (K <= 4)%nat ->
+  (forall kd, (kd < K)%nat -> p_array true self kd J = None) -> p_array true self K J = Some R ->
+  p_value true self J = Some R.
+Proof.
+  intros HK Hlt HR. unfold p_value.
+  destruct K as [|[|[|[|[|K]]]]]; try lia;
+    repeat match goal with
+           | |- context [p_array true self ?k J] =>
+               first [ rewrite HR | rewrite (Hlt k) by lia ]
+           end; reflexivity.
+Qed.
+
+Definition kind_of (v : value) : nat :=
+  match v with VByte _ _ => 0 | VNum _ [] => 0 | VNum _ _ => 1 | VCplx _ _ => 2 | VChar _ _ => 3 | VBox _ _ => 4 end%nat.
+
+Section Meta.
+  Variable self : json -> option mval.
+
+  (** the collection of a value under every element kind: only its own kind accepts it (an empty
+      number collection is accepted as bytes) *)
+  Lemma coll_table v sh : repr_ok v = true ->
+    Forall (fun x => self (to_json true x) = Some (MV (norm x) None None)) (match v with VBox _ d => d | _ => [] end) ->
+    (forall kd, (kd < kind_of v)%nat -> p_coll true self kd sh (coll_json true v) = None) /\
+    p_coll true self (kind_of v) sh (coll_json true v) =
+      Some (match norm v with
+            | VNum _ d => VNum sh d | VByte _ d => VByte sh d | VChar _ d => VChar sh d
+            | VCplx _ d => VCplx sh d | VBox _ d => VBox sh d end).
+  Proof.
+    intros Hr IH. destruct v as [s d|s d|s d|s d|s d]; cbn [repr_ok] in Hr.
+    - change (coll_json true (VNum s d)) with (cN d). destruct d as [|x d].
+      + split; [intros kd Hk; cbn in Hk; lia | reflexivity].
+      + cbn [kind_of norm]. split.
+        * intros kd Hk. assert (kd = 0%nat) by lia. subst. apply cN_0.
+        * apply cN_1; auto.
+    - change (coll_json true (VByte s d)) with (cB d). split; [intros kd Hk; cbn in Hk; lia|]. apply cB_0; auto.
+    - cbn [coll_json kind_of norm]. split; [|reflexivity].
+      intros kd Hk. destruct kd as [|[|[|kd]]]; try lia; reflexivity.
+    - change (coll_json true (VCplx s d)) with (cC d). cbn [kind_of norm]. split.
+      + intros kd Hk. apply cC_other. lia.
+      + apply cC_2; auto.
+    - change (coll_json true (VBox s d)) with (cX d). cbn [kind_of norm]. split.
+      + intros kd Hk. apply cX_other. lia.
+      + apply cX_4; auto.
+  Qed.
+
+  (** the metadata object of a label is no collection of any kind and no boxed value *)
+  Definition metaJ (l : text) : json := JObj [(K_LABEL, JStr l)].
+  Lemma metaJ_coll l kd sh : p_coll true self kd sh (metaJ l) = None.
+  Proof. destruct kd as [|[|[|[|[|kd]]]]]; reflexivity. Qed.
+
+  (** a collection is never a metadata object (unknown fields are refused) and never a complex element *)
+  Lemma coll_not_meta v : p_meta true (coll_json true v) = None.
+  Proof. destruct v as [s d|s d|s d|s [|? ?]|s [|? ?]]; reflexivity. Qed.
+  Lemma coll_not_complex_el v : (2 <= kind_of v)%nat -> p_complex_el true (coll_json true v) = None.
+  Proof.
+    destruct v as [s d|s d|s d|s d|s d]; cbn [kind_of]; intros H.
+    - destruct d; lia.
+    - lia.
+    - reflexivity.
+    - apply (cC_not_complex d).
+    - apply (cX_not_complex d).
+  Qed.
+
+  (** ---- a label: [shape, coll, {"label": l}] *)
+  Theorem label_roundtrip_step v l : wf_shape v = true -> repr_ok v = true ->
+    Forall (fun x => self (to_json true x) = Some (MV (norm x) None None)) (match v with VBox _ d => d | _ => [] end) ->
+    p_value true self (JArr [shape_json (shape_of v); coll_json true v; metaJ l]) = Some (MV (norm v) (Some l) None).
+  Proof.
+    intros Hwf Hr IH. destruct (coll_table v (shape_of v) Hr IH) as [Hlt Heq].
+    set (J := JArr [shape_json (shape_of v); coll_json true v; metaJ l]).
+    assert (HL : forall kd, (kd <= 4)%nat -> p_coll true self kd [] J = None).
+    { intros kd Hk. destruct kd as [|[|[|[|[|kd]]]]]; try lia; try reflexivity.
+      - unfold J. cbn [p_coll]. rewrite opt_map3_none by reflexivity. reflexivity.
+      - unfold J. cbn [p_coll]. rewrite opt_map3_none by reflexivity. reflexivity. }
+    assert (HS : forall kd, p_scalar true self kd J = None).
+    { intros kd. destruct kd as [|[|[|[|kd]]]]; reflexivity. }
+    assert (HA : forall kd, (kd <= 4)%nat -> p_array true self kd J =
+               option_map (fun x => MV x (Some l) None) (p_coll true self kd (shape_of v) (coll_json true v))).
+    { intros kd Hk. unfold J. rewrite p_array_tuple3 by (apply HL || apply HS; auto).
+      unfold map_try. rewrite metaJ_coll.
+      destruct (self (coll_json true v)) as [[kv [?|] [?|]]|]; reflexivity. }
+    assert (HK : (kind_of v <= 4)%nat) by (destruct v as [? [|? ?]| | | |]; cbn; lia).
+    apply (p_value_first self J _ (kind_of v) HK).
+    - intros kd Hk. rewrite HA by lia. rewrite Hlt by auto. reflexivity.
+    - rewrite HA by lia. rewrite Heq. cbn [option_map]. f_equal. f_equal.
+      destruct v as [s [|? ?]|s d|s d|s d|s d]; reflexivity.
+  Qed.
+End Meta.
+
+Lemma inner_IH v f : wf_shape v = true -> repr_ok v = true -> (vdepth v <= S f)%nat ->
+  Forall (fun x => of_json_fuel true f (to_json true x) = Some (MV (norm x) None None)) (match v with VBox _ d => d | _ => [] end).
+Proof.
+  intros Hwf Hr Hd. destruct v as [s d|s d|s d|s d|s d]; try constructor.
+  cbn [wf_shape] in Hwf. apply andb_prop in Hwf. destruct Hwf as [_ Hwf]. cbn [repr_ok] in Hr. cbn [vdepth] in Hd.
+  rewrite forallb_forall in Hwf, Hr. apply Forall_forall. intros x Hx.
+  apply value_json_roundtrip_fuel; auto. pose proof (fold_max_le d f x Hx). lia.
+Qed.
+
+Theorem label_json_roundtrip_fuel : forall v l f, wf_shape v = true -> repr_ok v = true -> (vdepth v <= S f)%nat ->
+  exists j, mto_json true (MV v (Some l) None) = Some j /\ of_json_fuel true (S f) j = Some (MV (norm v) (Some l) None).
+Proof.
+  intros v l f Hwf Hr Hd. eexists. split; [reflexivity|].
+  cbn [of_json_fuel]. apply label_roundtrip_step; auto. apply inner_IH; auto.
+Qed.
+
+Theorem label_json_roundtrip : forall v l, wf_shape v = true -> repr_ok v = true -> (vdepth v <= 12)%nat ->
+  exists j, mto_json true (MV v (Some l) None) = Some j /\ of_json true j = Some (MV (norm v) (Some l) None).
+Proof. intros v l Hwf Hr Hd. apply (label_json_roundtrip_fuel v l 11); auto. Qed.
+
+(** ---- map keys: [shape, keys, coll] (ArrayRep::Map).  A box array of shape [1] is excluded:
+    [[1], keys, [{"b":..}]] is ALSO a list of three boxed values, which ArrayRep::List tries first
+    (see [map1_refuted]). *)
+Section MapKeys.
+  Variable self : json -> option mval.
+
+  Lemma boxcoll_not_boxed s d : wf_shape (VBox s d) = true -> map1_free (VBox s d) = true ->
+    p_boxed self (shape_json s) = None \/ p_boxed self (cX d) = None.
+  Proof.
+    intros Hwf Hm. cbn [wf_shape] in Hwf. apply andb_prop in Hwf. destruct Hwf as [Hwf _].
+    apply PeanoNat.Nat.eqb_eq in Hwf.
+    destruct d as [|a [|b d]]; [right; reflexivity | | right; reflexivity].
+    left. destruct s as [|n [|n2 s']]; [reflexivity | | reflexivity].
+    cbn in Hwf. rewrite PeanoNat.Nat.mul_1_r in Hwf. subst n. discriminate.
+  Qed.
+
+  Theorem map_roundtrip_step v k : wf_shape v = true -> repr_ok v = true -> map1_free v = true ->
+    Forall (fun x => self (to_json true x) = Some (MV (norm x) None None)) (match v with VBox _ d => d | _ => [] end) ->
+    self (to_json true k) = Some (MV (norm k) None None) ->
+    p_value true self (JArr [shape_json (shape_of v); to_json true k; coll_json true v]) =
+      Some (MV (norm v) None (if Nat.eqb (rows (shape_of k)) (rows (shape_of v)) then Some (to_num (norm k)) else None)).
+  Proof.
+    intros Hwf Hr Hm IH Hk. destruct (coll_table self v (shape_of v) Hr IH) as [Hlt Heq].
+    set (J := JArr [shape_json (shape_of v); to_json true k; coll_json true v]).
+    assert (HL : forall kd, (kd <= kind_of v)%nat -> p_coll true self kd [] J = None).
+    { intros kd Hkd. destruct kd as [|[|[|[|[|kd]]]]]; try reflexivity.
+      - unfold J. cbn [p_coll]. rewrite opt_map3_none by (apply coll_not_complex_el; lia). reflexivity.
+      - destruct v as [s d|s d|s d|s d|s d]; try (destruct d; cbn in Hkd; lia); try (cbn in Hkd; lia).
+        unfold J. cbn [p_coll shape_of]. change (coll_json true (VBox s d)) with (cX d).
+        destruct (boxcoll_not_boxed s d Hwf Hm) as [E | E].
+        + rewrite opt_map_head_none by exact E. reflexivity.
+        + rewrite opt_map3_none by exact E. reflexivity. }
+    assert (HS : forall kd, p_scalar true self kd J = None).
+    { intros kd. destruct kd as [|[|[|[|kd]]]]; reflexivity. }
+    assert (HK : (kind_of v <= 4)%nat) by (destruct v as [? [|? ?]| | | |]; cbn; lia).
+    apply (p_value_first self J _ (kind_of v) HK).
+    - intros kd Hkd. unfold J. rewrite p_array_tuple3 by (apply HL || apply HS; lia).
+      unfold map_try. rewrite Hk, (Hlt kd Hkd), coll_not_meta. reflexivity.
+    - unfold J. rewrite p_array_tuple3 by (apply HL || apply HS; lia).
+      unfold map_try. rewrite Hk, Heq. rewrite norm_shape. f_equal. f_equal.
+      destruct v as [s [|? ?]|s d|s d|s d|s d]; reflexivity.
+  Qed.
+End MapKeys.
+
+Theorem map_json_roundtrip_fuel : forall v k f, wf_shape v = true -> repr_ok v = true -> map1_free v = true ->
+  wf_shape k = true -> repr_ok k = true -> (vdepth v <= S f)%nat -> (vdepth k <= f)%nat ->
+  exists j, mto_json true (MV v None (Some k)) = Some j /\
+    of_json_fuel true (S f) j =
+      Some (MV (norm v) None (if Nat.eqb (rows (shape_of k)) (rows (shape_of v)) then Some (to_num (norm k)) else None)).
+Proof.
+  intros v k f Hwf Hr Hm Hwk Hrk Hd Hdk. eexists. split; [reflexivity|].
+  cbn [of_json_fuel]. apply map_roundtrip_step; auto.
+  - apply inner_IH; auto.
+  - apply value_json_roundtrip_fuel; auto.
+Qed.
+
+Theorem map_json_roundtrip : forall v k, wf_shape v = true -> repr_ok v = true -> map1_free v = true ->
+  wf_shape k = true -> repr_ok k = true -> (vdepth v <= 12)%nat -> (vdepth k <= 11)%nat ->
+  exists j, mto_json true (MV v None (Some k)) = Some j /\
+    of_json true j =
+      Some (MV (norm v) None (if Nat.eqb (rows (shape_of k)) (rows (shape_of v)) then Some (to_num (norm k)) else None)).
+Proof. intros. apply (map_json_roundtrip_fuel v k 11); auto. Qed.
+
+(** the excluded case is a defect of the current representation: the one-entry box map
+    {5 -> box 1} is written [[1],[5.0],[{"b":1}]] and reads back as a list of three boxes *)
+Theorem map1_refuted :
+  exists m j m', mto_json true m = Some j /\ of_json true j = Some m' /\ mval_same m' m = false /\
+    m' = MV (VBox [3%nat] [VByte [] [1]; VNum [] [4617315517961601024]; VBox [] [VByte [] [1]]]) None None.
+Proof.
+  exists (MV (VBox [1%nat] [VByte [] [1]]) None (Some (VNum [1%nat] [4617315517961601024]))). eexists. eexists.
+  split; [vm_compute; reflexivity|]. split; [vm_compute; reflexivity|]. split; reflexivity.
+Qed.
+
+(** the statements above in the form the tie evaluates ([meta_expect]) *)
+Theorem meta_json_roundtrip : forall m e j, meta_expect m = Some e -> mto_json true m = Some j ->
+  (match m with MV v _ k => wf_shape v = true /\ repr_ok v = true /\ (vdepth v <= 12)%nat /\
+     match k with Some k => wf_shape k = true /\ repr_ok k = true /\ (vdepth k <= 11)%nat | None => True end end) ->
+  of_json true j = Some e.
+Proof.
+  intros [v [l|] [k|]] e j He Hj Hp; cbn [meta_expect] in He; try discriminate.
+  - destruct Hp as (H1 & H2 & H3 & _). inversion He; subst.
+    destruct (label_json_roundtrip v l H1 H2 H3) as (j' & Ej & Er). congruence.
+  - destruct Hp as (H1 & H2 & H3 & H4 & H5 & H6). destruct (map1_free v) eqn:Em; [|discriminate]. inversion He; subst.
+    destruct (map_json_roundtrip v k H1 H2 Em H4 H5 H3 H6) as (j' & Ej & Er). congruence.
+  - destruct Hp as (H1 & H2 & H3 & _). inversion He; subst. cbn [mto_json] in Hj. inversion Hj; subst.
+    apply value_json_roundtrip; auto.
+Qed.
